@@ -195,13 +195,17 @@ class Gen:
         return out
 
     def _choose(self, cands):
-        w = numpy.array([1. + 2.5 * n.depth + (1.5 if n.leaf == 'topo' else 0.) for n in cands])
+        w = numpy.array([(1. + n.depth) ** 2 + (2. if n.leaf == 'topo' else 0.) for n in cands])
         return cands[int(self.rng.choice(len(cands), p=w / w.sum()))]
 
-    def operand(self, kinds, ndim=(0, 3), dist='std', pred=None, need_array=False, fresh_shape=None, p_fresh=.3):
+    def operand(self, kinds, ndim=(0, 3), dist='std', pred=None, need_array=False, fresh_shape=None, p_fresh=.18, prefer=None):
         rng = self.rng
         if not self.freshonly and rng.random() > p_fresh:
             cands = self.pool(kinds, ndim, pred, need_array)
+            if prefer:
+                pref = [n for n in cands if prefer(n)]
+                if pref and rng.random() < .7:
+                    cands = pref
             if cands:
                 return self._choose(cands)
         kind = str(rng.choice(list(kinds)))
@@ -209,7 +213,7 @@ class Gen:
         lk = ('arg', 'const') if need_array else None
         return self.fresh(kind, shape, dist, leafkinds=lk)
 
-    def second(self, first, kinds, dist='std', p_fresh=.45):
+    def second(self, first, kinds, dist='std', p_fresh=.4):
         rng = self.rng
         if not self.freshonly and rng.random() > p_fresh:
             def ok(n):
@@ -306,6 +310,13 @@ OPNAMES = sorted(OPS)
 def op_weights():
     w = numpy.array([OPS[n].weight for n in OPNAMES], dtype=float)
     return w / w.sum()
+
+
+def is_sparse(n):
+    """operands that nutils represents by scattered blocks (bases, stacks, concatenations): indexing them takes other code paths"""
+    if n.leaf == 'topo':
+        return 'basis' in n.spec['name'] or 'ivec' in n.spec['name']
+    return n.opname in ('stack', 'concatenate', 'choose')
 
 
 def seed_pool(g, env, rng):
